@@ -13,7 +13,7 @@ class C16(Prop):
     named_errors = set()
     pid = "C16"
     title = "Rich header decode, checksum and encode are mutually consistent"
-    thm_modules = ["PeliteModel.Thm.C16"]
+    thm_modules = ["PeliteModel.Thm.C16", "PeliteModel.Thm.C16Layout"]
     gens = [gen_rich.gen_rich_rt, gen_rich.gen_rich_raw, gen_rich.gen_rich_img, gen_rich.gen_rich_codec,
             gen_rich.gen_rich_encode, gen_rich.gen_rich_iter]
 
